@@ -710,8 +710,7 @@ class ConfigInformation:
             for k, argument in self.xpmtype.arguments.items():
                 value = self.values.get(k)
                 if value is not None:
-                    if isinstance(value, Config):
-                        value.__xpm__.validate()
+                    ConfigInformation._validate_value(value)
                 elif argument.required:
                     if not argument.generator:
                         raise ValueError(
@@ -736,6 +735,19 @@ class ConfigInformation:
                         "Error while validating %s at %s", self.xpmtype, self._initinfo
                     )
                     raise
+
+    @staticmethod
+    def _validate_value(value):
+        """Validate the configurations contained in a value (also within
+        lists and dictionaries)"""
+        if isinstance(value, Config):
+            value.__xpm__.validate()
+        elif isinstance(value, list):
+            for el in value:
+                ConfigInformation._validate_value(el)
+        elif isinstance(value, dict):
+            for el in value.values():
+                ConfigInformation._validate_value(el)
 
     def seal(self, context: ConfigWalkContext):
         """Seals the object and generate values when needed
